@@ -1,8 +1,10 @@
 #!/bin/sh
-# usage: seedtest.sh <seed-dir> <property> [extra gosmt args]   -- applies seeded/<dir>/patch.diff to /repo, runs the quick check, reverts
+# usage: seedtest.sh <seed-dir> <property> [extra gosmt args]   -- applies seeded/<dir>/patch.diff to /repo, runs the quick
+# check over both harness roots (portable tags, default amd64 tags), reverts
 set -u
 D=/verif/seeded/$1; P=$2; shift 2
 git -C /repo apply "$D/patch.diff" || { echo "patch does not apply"; exit 3; }
 /verif/bin/gosmt check -prop "$P" -tier "${TIER:-quick}" -harness /verif/harness -known /verif/known_findings.json -replaydir /tmp/seed_replay -out /tmp/seed_evidence_$P.json "$@" 2>&1 | grep -E "finding|VIOLATION|INCONCL|harnesses held" | cut -c1-260
+/verif/bin/gosmt check -prop "$P" -tier "${TIER:-quick}" -harness /verif/harness_default -tags "" -known /verif/known_findings.json -replaydir /tmp/seed_replay -out /tmp/seed_evidence_${P}_default.json "$@" 2>&1 | grep -E "finding|VIOLATION|INCONCL|harnesses held" | cut -c1-260
 git -C /repo checkout -- . 
-git -C /repo status --short | grep -v "^??" 
+git -C /repo status --short | grep -v "^??"
